@@ -342,6 +342,12 @@ class EvalMixin:
     def contains(self, st, cont, x, node):
         """x in cont -> z3 Bool"""
         cont = self.lift(cont)
+        x = self.lift(x)
+        if isinstance(x, OptV) and not (isinstance(cont, Ref) and cont.t.args and cont.t.args[0].kind == 'opt'):
+            inner = self.contains(st, cont, x.val, node)
+            return None if inner is None else z3.And(z3.Not(x.none), inner)
+        if isinstance(x, NoneV) and isinstance(cont, Ref) and cont.t.args and cont.t.args[0].kind != 'opt':
+            return z3.BoolVal(False)
         if isinstance(cont, OptV):
             cont = self.deopt(cont, st, node)
         if isinstance(cont, SV) and cont.t.kind in ('list', 'dict', 'set'):
